@@ -71,6 +71,13 @@
     exception stated; nothing is claimed about Name, URI, Tag or leading white space (a display name `"A B"  <…>` does end
     with blanks, in the model and in Go).
   * `msg_trim_schedule_init` speaks about SOME buffer of the schedule (`∃ b ∈ l`), not explicitly the last one.
+  STRENGTHENED afterwards (`Sipsp.Proofs.AuditFixC`): `values_pinned_init`, `values_pinned_schedule_init`, `values_pinned_last`
+  — the list of ALL accepted header lines is a function of the input (`afcMsgLines`, shown to be the lines of the text:
+  `pinned_lines_are_the_text`); the lines of the list's type are exactly HNo many, one count ≥ 1 per line summing to N, the
+  values of the i-th such line form the i-th cumulative block, and every stored value lies inside the Val of ITS line
+  whether or not that line was stored — no constant map satisfies this when the header array overflows (refuted by
+  evaluation for capacities 1 / 4); it implies both older forms (`pinned_implies_in_headers`); `msg_trim_last` names the
+  last buffer.
 -/
 import Sipsp.Proofs.Layout
 import Sipsp.Properties.C01
@@ -80,6 +87,7 @@ import Sipsp.Proofs.NaNest
 import Sipsp.Proofs.SigCovered
 import Sipsp.Proofs.PaiLines
 import Sipsp.Proofs.HnoExact
+import Sipsp.Proofs.AuditFixC
 
 namespace Sipsp.C05
 open Sipsp
@@ -480,5 +488,59 @@ theorem msg_vals_init : type_of% @Sipsp.hx_msg_vals_init := @Sipsp.hx_msg_vals_i
 
 /-- `HxTrC`, spelled out (`E` = the end of the span) -/
 theorem trim_meaning : type_of% @Sipsp.HxTrC.meaning := @Sipsp.HxTrC.meaning
+
+/-! ### the line of every stored value PINNED (the list of all accepted lines is a function of the input): not satisfiable by a constant map when the header array overflows (proved in `Sipsp.Proofs.AuditFixC`) -/
+
+/-- **[C05] message level, one call on an object produced by Init, line index pinned** (any previous contents, caller
+    arrays of any capacity or none; EVERY input within the 65,535-byte limit): with `gs` = the list of ALL accepted
+    header lines (a function of the input), `AfcMsg gs m'` -/
+theorem values_pinned_init : type_of% @Sipsp.afc_values_pinned_init := @Sipsp.afc_values_pinned_init
+
+/-- **[C05] … under every chunk schedule, from Init**: if the chain of resumed calls over growing prefixes ends with
+    OK, the final object is the object of ONE call on a buffer `b` of the schedule — a prefix of the last buffer `B`, so
+    every span is a span of `B` with the same bytes — and satisfies the pinned statement relative to the accepted lines
+    of `b` -/
+theorem values_pinned_schedule_init : type_of% @Sipsp.afc_values_pinned_schedule_init := @Sipsp.afc_values_pinned_schedule_init
+
+/-- **[C05] the pinned statement under every chunk schedule from Init, on the LAST buffer `B` of the schedule**
+    (`l.getLast? = some B`): if the chain of resumed calls over growing prefixes ends with OK, the final object satisfies
+    `AfcMsg` relative to the accepted header lines of `B` itself -/
+theorem values_pinned_last : type_of% @Sipsp.afc_values_pinned_last := @Sipsp.afc_values_pinned_last
+
+/-- **header block** (same hypotheses as `hx_parseHeaders`): `gs0` = the lines accepted before the call; after OK the
+    lines are `gs0 ++ afcTrace …`, the stored headers are entries of that list, and both value lists are associated
+    with it -/
+theorem values_pinned_headers : type_of% @Sipsp.afc_parseHeaders := @Sipsp.afc_parseHeaders
+
+/-- **message, one call from the initial state** (same hypotheses as `hx_parseSIPMsg`; no header counted yet) -/
+theorem values_pinned_msg : type_of% @Sipsp.afc_parseSIPMsg := @Sipsp.afc_parseSIPMsg
+
+/-- **message from Init**: the list `afcMsgLines` is a chain of lines of the header block — it starts where the first line
+    ends, every entry has the name as written and the type of that name — and the header list of the final object is
+    what accepting exactly these entries, in order, produces -/
+theorem pinned_lines_are_the_text : type_of% @Sipsp.afc_msgLines_chain := @Sipsp.afc_msgLines_chain
+
+/-- a message parsed with OK has the same accepted header lines in every extension of the buffer -/
+theorem pinned_lines_stable : type_of% @Sipsp.afc_msgLines_app := @Sipsp.afc_msgLines_app
+
+/-- **`AfcMsg`, spelled out for the Contact values** (the identities: the same with `pais`): `gs` has one entry per counted
+    header line, the stored headers are entries of `gs`, and there is a monotone map `f` into the positions of `gs` with:
+    line `f k` is a Contact line; stored value `k` has at least one byte and lies inside the `val` of line `f k`, stored
+    or not; every Contact line is hit; and `HNo` is the number of Contact lines in `gs` -/
+theorem pinned_meaning : type_of% @Sipsp.AfcMsg.meaning := @Sipsp.AfcMsg.meaning
+
+theorem pinned_implies_in_headers : type_of% @Sipsp.AfcMsg.plMsg := @Sipsp.AfcMsg.plMsg
+
+/-- **`AfcAssoc`, the map form**: there is a map `f` from the values counted to the positions in `gs` (ALL accepted
+    lines), monotone (values are associated with lines in message order), such that line `f k` has the type of the
+    list and — whether or not that line is stored in the header array — every stored value `k` has at least one byte
+    and lies inside the `val` of line `f k`; every line of the type is the line of some value -/
+theorem pinned_assoc_map : type_of% @Sipsp.AfcAssoc.map := @Sipsp.AfcAssoc.map
+
+/-- **[C05] trimming under every chunk schedule from Init, stated on the last buffer `B` of the schedule**: if the chain
+    ends with OK, then — reading the bytes in `B` — the From and To values (if parsed) do not end with white space,
+    every stored Contact / identity value does not end with white space except in the one shape of `HxTrC`; the
+    message is complete and `len(msg.Buf)` = the returned offset `≤ len(B)` -/
+theorem msg_trim_last : type_of% @Sipsp.afc_msg_trim_last := @Sipsp.afc_msg_trim_last
 
 end Sipsp.C05
